@@ -405,7 +405,8 @@ def modattr_hook(eng, ctx, modname, attr):
     return None
 
 
-OPTS = {'name_hook': name_hook, 'modattr_hook': modattr_hook}
+OPTS = {'name_hook': name_hook, 'modattr_hook': modattr_hook,
+        'val_attr_class': {'decoded_values_all_subsets': 'TemplateData', 'decoded_descriptors_all_subsets': 'TemplateData'}}
 
 
 def ground_checks(db):
